@@ -129,13 +129,9 @@ func writeEmptyPqsMapToFile(fileName string, emptyPqs map[string]bool) {
 }
 
 func removePqmrFilesAndDirectory(pqid string) error {
-	workingDirectory, err := os.Getwd()
-	if err != nil {
-		log.Errorf("removePqmrFilesAndDirectory: Error fetching current workingDirectory")
-		return err
-	}
-	pqFname := workingDirectory + "/" + getPqmetaFilename(pqid)
-	err = os.Remove(pqFname)
+	// the name is used as it is (relative to the working directory unless the data path is absolute)
+	pqFname := getPqmetaFilename(pqid)
+	err := os.Remove(pqFname)
 	if err != nil {
 		log.Errorf("removePqmrFilesAndDirectory: Cannot delete file=%v, Error=%v", pqFname, err)
 		return err
